@@ -4,7 +4,11 @@
 // functions are declarations only; the engine (ssasym) intercepts them by name.
 package verifrt
 
-import "time"
+import (
+	"time"
+
+	gtfsrt "github.com/jamespfennell/gtfs/proto"
+)
 
 func Bool(tag string) bool
 func Int(tag string, lo, hi int) int
@@ -28,9 +32,13 @@ func Cfg(key, val string)
 func Param(name string, def int) int
 func Unix(sec int64, loc *time.Location) time.Time
 func Symbolic() bool
+func Marshal(m *gtfsrt.FeedMessage) []byte
+func BadBytes() []byte
 func And(xs ...bool) bool
 func Or(xs ...bool) bool
 func Implies(a, b bool) bool
+
+func Ite[X any](c bool, a, b X) X { if c { return a }; return b } // intercepted by the engine
 
 func P[X any](v X) *X { return &v }
 
